@@ -414,6 +414,10 @@ ASMJIT_FAVOR_SIZE Error init_func_detail(FuncDetail& func, const FuncSignature& 
             }
             continue;
           }
+
+          // Mask and MMX (and any other) types have no passing rule in this strategy - refuse instead of
+          // leaving the argument without a register or stack location.
+          return make_error(Error::kInvalidArgument);
         }
       }
       break;
@@ -514,6 +518,9 @@ ASMJIT_FAVOR_SIZE Error init_func_detail(FuncDetail& func, const FuncSignature& 
             }
             continue;
           }
+
+          // Mask types have no passing rule in the Win64 / vectorcall strategies.
+          return make_error(Error::kInvalidArgument);
         }
       }
       break;
